@@ -203,7 +203,8 @@ def call(f, *a):
         return ("err", "RecursionError")
     except Exception as ex:  # noqa
         c = err_class(ex)
-        return ("err", "Other" if c.startswith("Other") else c)
+        # the model maps StopIteration and AttributeError (parser falling off its input) to Err.other
+        return ("err", "Other" if (c.startswith("Other") or c == "AttributeError") else c)
 
 
 def model_ans(fields):
